@@ -27,11 +27,13 @@ TICK = Fraction(1, 48)
 
 
 def anchors():
-    from simfile.notes import timed
-    from simfile.timing import engine as E
+    from ..core import pick
 
-    return {"TimingEngine.hittable": E.TimingEngine.hittable, "time_notes": timed.time_notes,
-            "TimingEngine._coalesce_warps": E.TimingEngine._coalesce_warps}
+    return pick(
+        "simfile.timing.engine:TimingEngine.hittable",
+        "simfile.notes.timed:time_notes",
+        "simfile.timing.engine:TimingEngine._coalesce_warps",
+    )
 
 
 def cases(ctx):
